@@ -496,6 +496,20 @@ Definition hook_wrap (p : path) (is_method : bool) (name : ident) (decs : list e
     end
   else decorated.
 
+(* the call that creates the (still empty) class.  Python evaluates the bases, then the keywords in the order written,
+   `metaclass=` among them: with a metaclass keyword bases and keywords go - in that order - to a helper that takes the
+   metaclass out of the keywords (fix: the metaclass expression used to be the callee, evaluated before the bases) *)
+Definition is_meta_kw (kw : option ident * expr) : bool :=
+  match fst kw with Some k => String.eqb k "metaclass" | None => false end.
+Definition class_create (p : path) (name : ident) (bases' : list expr) (kws' : list (option ident * expr)) : expr :=
+  if existsb is_meta_kw kws' then
+    let b := ol "bases" (path_str p) in
+    let k := ol "kwds" (path_str p) in
+    Call (Lambda [] [b] None [] [] (Some k) []
+            (Call (call (Attribute (Name k) "pop") [cstr "metaclass"]) [cstr name; Name b; EDict [] []] [(None, Name k)]))
+         [ETuple bases'] kws'
+  else Call (Name "type") [cstr name; ETuple bases'; EDict [] []] kws'.
+
 (* ---------- statements ---------- *)
 Section Stmts.
   Variable cfg : config.
@@ -683,11 +697,7 @@ Section Stmts.
                 let! b' := block (mkCtx cn [] false) p 0 0 b in
                 let! bases' := rmap (tr n) bases in
                 let! kws' := rmap (fun kw => let! v := tr n (snd kw) in ret (fst kw, v)) kws in
-                let is_meta := fun (kw : option ident * expr) =>
-                  match fst kw with Some k => String.eqb k "metaclass" | None => false end in
-                let meta := match rev (filter is_meta kws') with kw :: _ => snd kw | [] => Name "type" end in
-                let! create := get_assign n name
-                                 (Call meta [cstr name; ETuple bases'; EDict [] []] (filter (fun kw => negb (is_meta kw)) kws')) in
+                let! create := get_assign n name (class_create p name bases' kws') in
                 let! load1 := get_load_name n [] false name in
                 let cd := ol "classnsp" (ncode (n_id cn)) in
                 let loader := ol "loader" (path_str p) in
